@@ -46,7 +46,7 @@ func init() {
 }
 
 func sigArmAllow() []string {
-	return []string{"sigsrv/", "bl:client/client.go"}
+	return []string{"sigsrv/", "bl:bifrost/signaling/rpc/client/client.go"}
 }
 
 func (w *c23World) Setup(s *dsim.Sim) {
